@@ -19,7 +19,7 @@ func RunRetrieve(c *Ctx) {
 		runs = 200
 	}
 	for r := 0; r < runs; r++ {
-		shapeName := []string{"ShapeA", "ShapeE"}[r%2]
+		shapeName := []string{"ShapeA", "ShapeE", "ShapeA", "ShapeE", "ShapeZ"}[r%5]
 		start := []uint64{1, 1, 3}[rng.Intn(3)]
 		synctest.Run(func() {
 			s := newSyncRun(c, fmt.Sprintf("retrieve/%s/%d", shapeName, r), 1, SyncShapes[shapeName], world.F{"src": "retrieve", "shape": shapeName, "dastart": int(start)})
